@@ -218,12 +218,11 @@ Fixpoint render (ts : list token) : list Z :=
 (* ---- strip_trailing_whitespace ---- *)
 
 (* char::is_whitespace (Unicode White_Space), used by str::trim_end *)
-Definition is_ws (c : Z) : bool :=
-  ((9 <=? c) && (c <=? 13)) || (c =? 32) || (c =? 133) || (c =? 160) || (c =? 5760)
-  || ((8192 <=? c) && (c <=? 8202)) || (c =? 8232) || (c =? 8233) || (c =? 8239)
-  || (c =? 8287) || (c =? 12288).
+(* the characters stripped at the end of a line: pretty.rs:301 `line.trim_end_matches([' ', '\t'])` — only space
+   and tab since the F18 repair (commit 868b2cc); before, `trim_end()` stripped all Unicode White_Space *)
+Definition is_ws (c : Z) : bool := (c =? 32) || (c =? 9).
 
-(* str::trim_end *)
+(* str::trim_end_matches([' ', '\t']) *)
 Fixpoint trim_end (l : list Z) : list Z :=
   match l with
   | [] => []
@@ -234,13 +233,15 @@ Fixpoint trim_end (l : list Z) : list Z :=
     end
   end.
 
-(* str::lines: LF is a line TERMINATOR (no final empty line; "" has no lines).  lines() also drops
-   one CR before the LF; that is subsumed here because every line is then trim_end-ed and CR (13)
-   is White_Space, so it is not modelled separately. `cur` is the current line, reversed. *)
+(* str::lines: LF is a line TERMINATOR (no final empty line; "" has no lines); a line that was terminated by LF
+   additionally loses ONE trailing CR (`strip_suffix('\n')` then `strip_suffix('\r')`); an unterminated last line
+   keeps it. `cur` is the current line, reversed. *)
+Definition drop_cr (cur : list Z) : list Z :=
+  match cur with c :: r => if c =? 13 then r else cur | [] => [] end.
 Fixpoint split_lines_aux (cur : list Z) (s : list Z) : list (list Z) :=
   match s with
   | [] => match cur with [] => [] | _ :: _ => [rev cur] end
-  | c :: t => if c =? 10 then rev cur :: split_lines_aux [] t
+  | c :: t => if c =? 10 then rev (drop_cr cur) :: split_lines_aux [] t
               else split_lines_aux (c :: cur) t
   end.
 Definition split_lines (s : list Z) : list (list Z) := split_lines_aux [] s.
@@ -253,7 +254,7 @@ Fixpoint join_lf (ls : list (list Z)) : list Z :=
   end.
 
 (* pretty.rs:297  fn strip_trailing_whitespace(s: &str) -> String
-     s.lines().map(|line| line.trim_end()).collect::<Vec<_>>().join("\n") *)
+     s.lines().map(|line| line.trim_end_matches([' ', '\t'])).collect::<Vec<_>>().join("\n") *)
 Definition strip_trailing_whitespace (s : list Z) : list Z :=
   join_lf (map trim_end (split_lines s)).
 
